@@ -25,6 +25,7 @@ ATTR_SETS = [
     [('*if', '"y"')],
     [('a', '"it\'s > 1"'), ('d', 'e')],
     [('a', '\'say "x>"\''), ('c', None)],
+    [('{...p}', None), ('(click)', '"f(a>b)"')],
 ]
 # extended menu for the action helpers (C17): class token lists, empty values, expressions
 ATTR_SETS_ACTIONS = [
